@@ -280,7 +280,8 @@ PlanThorough ==
     SegP({"T0"}, 0, 2, {"distinct"}, AllPl, {"doc"}, EmptyPairs \cup MixedPairs),
     SegP({"T0"}, 3, 3, {"distinct"}, {"body"}, {"doc"}, {<<"empty","-">>, <<"-","empty">>, <<"nil","nil">>}),
     SegP({"T0"}, 0, 1, {"distinct", "same", "none"}, AllPl, {"doc", "open", "file"}, TypedPairs \cup {<<"empty","empty">>, <<"nil","-">>}),
-    SegP(Texts \ {"T0"}, 0, 2, {"distinct"}, AllPl, {"doc"}, EmptyPairs \cup {<<"int","bool">>, <<"empty","plain">>}),
+    SegP(Texts \ {"T0"}, 0, 1, {"distinct"}, AllPl, {"doc"}, EmptyPairs \cup {<<"int","bool">>, <<"empty","plain">>}),
+    SegP(Texts \ {"T0"}, 2, 2, {"distinct"}, {"body", "header"}, {"doc"}, EmptyPairs),
     ExtrasP(AllPl, {"doc", "file"}, {<<"empty","empty">>, <<"nil","-">>, <<"int","bool">>}),
     Media({"doc", "open", "file"}, MediaNamings, 2) }
   \cup Others({"doc", "open", "file"}, 3, AllPl)
